@@ -186,6 +186,8 @@ type Backend struct {
 	Close    func()
 	// CopyFile (Bolt only) copies the database file as committed to dst.
 	CopyFile func(dst string) error
+	// Physical (kind "cache") records the database under the write cache.
+	Physical *Rec
 	// Committed (MemDB-backed only) returns the committed image at any moment: what a process
 	// that stops now and reopens would find. It may only change in Flush.
 	Committed func() Image
@@ -210,10 +212,13 @@ func Open(kind, dir string) (*Backend, error) {
 			Committed: func() Image { return Image(db.VerifCommitted()) }}, nil
 	case "cache":
 		inner := chain.NewMemDB()
-		db := chain.NewCacheDB(inner)
+		// the physical database under the write cache is recorded too: every Flush it receives is a
+		// commit a stop can follow
+		phys := &Rec{Inner: inner}
+		db := chain.NewCacheDB(phys)
 		// the committed image is what the inner database holds after the cache was flushed into it
 		return &Backend{Kind: kind, DB: db, Snapshot: func() Image { return Dump(inner) }, Close: func() {},
-			Committed: func() Image { return Image(inner.VerifCommitted()) }}, nil
+			Committed: func() Image { return Image(inner.VerifCommitted()) }, Physical: phys}, nil
 	case "bolt", "cachebolt":
 		path := filepath.Join(dir, "chain.db")
 		bdb, err := bbolt.Open(path, 0o600, &bbolt.Options{NoSync: true, NoFreelistSync: true})
